@@ -26,7 +26,7 @@ def save_case(pid, case, message):
     data = json.dumps({"property": pid, "message": message, "sig": "", "case": case}, indent=1).encode()
     d = os.path.join(ROOT, "replays", pid)
     os.makedirs(d, exist_ok=True)
-    path = os.path.join(d, "v-%s.json" % hashlib.sha256(json.dumps(case, sort_keys=True).encode()).hexdigest()[:12])
+    path = os.path.join(d, ("p" if os.environ.get("VERIF_REPO") else "v") + "-%s.json" % hashlib.sha256(json.dumps(case, sort_keys=True).encode()).hexdigest()[:12])
     with open(path, "wb") as f:
         f.write(data + b"\n")
     return path
@@ -156,7 +156,8 @@ def stage_fuzz(ctx, base_env):
     pid, work, tconf = ctx["pid"], ctx["work"], ctx["tconf"]
     fuzztime = tconf.get("fuzztime", "60s")
     rdir = os.path.join(ROOT, "replays", pid)
-    before = set(glob.glob(os.path.join(rdir, "v-*.json")))
+    pat = ("p" if os.environ.get("VERIF_REPO") else "v") + "-*.json"
+    before = set(glob.glob(os.path.join(rdir, pat)))
     cache = os.path.join(work.dir, "fuzzcache")
     env = dict(m.GOENV)
     env.update(base_env)
@@ -171,7 +172,7 @@ def stage_fuzz(ctx, base_env):
     execs = 0
     for mm in re.finditer(r"execs: (\d+)", out):
         execs = max(execs, int(mm.group(1)))
-    new = sorted(set(glob.glob(os.path.join(rdir, "v-*.json"))) - before)
+    new = sorted(set(glob.glob(os.path.join(rdir, pat))) - before)
     pf = os.path.join(work.dir, "fuzz.json")
     json.dump({"property_id": pid, "rule": "", "evaluations": 0, "counters": {"native_fuzz_execs": execs, "native_fuzz_seconds": int(time.time() - t0)}}, open(pf, "w"))
     ctx["partials"].append(pf)
